@@ -721,8 +721,9 @@ def selftest(tier: str) -> int:
         finally:
             setattr(obj, name, old)
 
-    def pats(lst, fmt=r"\{}$", flags=0):
-        return [re.compile(fmt.format(p), flags) if isinstance(p, str) else p for p in lst]
+    def pats(lst, fmt=r"{}\Z", flags=0):
+        # the library's own translation of a suffix string (re.escape + \Z), varied by the probes
+        return [re.compile(fmt.format(re.escape(p)), flags) if isinstance(p, str) else p for p in lst]
 
     def valid_with(fn):
         return lambda: patch(F, "_is_path_valid", fn)
@@ -731,8 +732,8 @@ def selftest(tier: str) -> int:
         return any_regex_match(path, pats(app_settings.STATIC_FILES_ALLOWED))
 
     def unanchored(self, path):
-        return any_regex_match(path, pats(app_settings.STATIC_FILES_ALLOWED, r"\{}")) and \
-            no_regex_match(path, pats(app_settings.STATIC_FILES_FORBIDDEN, r"\{}"))
+        return any_regex_match(path, pats(app_settings.STATIC_FILES_ALLOWED, "{}")) and \
+            no_regex_match(path, pats(app_settings.STATIC_FILES_FORBIDDEN, "{}"))
 
     def ignorecase(self, path):
         return any_regex_match(path, pats(app_settings.STATIC_FILES_ALLOWED, flags=re.I)) and \
